@@ -3,6 +3,17 @@
 ZSTD = "zstd crate: decompress(compress(x)) = x and context-history independence (exercised, not proved)"
 
 PROPS = {
+    "C10": {
+        "level": "proof",
+        "assumptions": [
+            "Model/Segment.lean mirrors segment.rs split_at_splitters_with_size / split_at_splitters over the k-mer window "
+            "of Model/Kmer.lean; tied by exact correspondence (segment data, front/back k-mers, orientation flags) on "
+            "exhaustive small contigs with all splitter subsets and random contigs for k 1..32",
+            "the tiling theorems hold for every window tracker whose `is_full` implies that k symbols were inserted since "
+            "the last reset (proved for the Kmer model from its `cur` counter alone); boundary k-mer values are stated "
+            "relative to the tracker (C20 identifies them with the canonical k-mer of the window)",
+        ],
+    },
     "C20": {
         "level": "proof",
         "assumptions": [
